@@ -207,7 +207,8 @@ def harness_text(g, known, reach=False):
             L.append('\t%s ret = %s;' % (g['ret'], g['call']))
         else:
             L.append('\t%s;' % g['call'])
-        L.append('\t__CPROVER_assert(%s, "postcondition %s (direct)");' % (post, g['fn']))
+        if not reach:
+            L.append('\t__CPROVER_assert(%s, "postcondition %s (direct)");' % (post, g['fn']))
     elif g['body'] is None:
         L.append('\t%s;' % g['call'])
     if reach:
@@ -658,15 +659,19 @@ def run_group(ctx, g, obj):
             if rb is None:
                 res['reason'] = 'reach twin: ' + rout
                 return res
-            rcmd = ['cbmc', rb, '--json-ui', '--trace', '--object-bits', '12', '--no-standard-checks',
-                    '--no-built-in-assertions', '--sat-solver', 'cadical', '--drop-unused-functions']
+            rbase = ['cbmc', rb, '--json-ui', '--trace', '--object-bits', '12', '--no-standard-checks',
+                     '--no-built-in-assertions', '--drop-unused-functions', '--property', 'r_%s.assertion.1' % c]
             if g['unwind']:
                 uw = g['unwind']
-                rcmd += (['--unwind', str(uw)] if isinstance(uw, int) else
-                         ['--unwindset', ','.join('%s:%d' % (k, v) for k, v in
-                                                  {kk.replace('h_' + c, 'r_' + c): vv for kk, vv in uw.items()}.items())])
-            rc, out, dt = run(rcmd, timeout=g['timeout'], cwd=ctx.work, mem_kb=MEM_KB)
-        rr, _, st = parse_cbmc_json(out) if rc in (0, 10) else (None, None, None)
+                rbase += (['--unwind', str(uw)] if isinstance(uw, int) else
+                          ['--unwindset', ','.join('%s:%d' % (k, v) for k, v in
+                                                   {kk.replace('h_' + c, 'r_' + c): vv for kk, vv in uw.items()}.items())])
+            rr = None
+            for rs in dict.fromkeys([win, 'cadical', 'z3']):
+                rc, out, dt = run(rbase + SOLVER_ARGS[rs], timeout=min(g['timeout'], 200), cwd=ctx.work, mem_kb=MEM_KB)
+                rr, _, st = parse_cbmc_json(out) if rc in (0, 10) else (None, None, None)
+                if rr and [r for r in rr if 'VERIF_REACH' in (r['description'] or '')]:
+                    break
         reach = [r for r in (rr or []) if 'VERIF_REACH' in (r['description'] or '')]
         if not reach:
             res['reason'] = 'reach twin gave no answer (%s)' % (rc,)
